@@ -34,6 +34,8 @@ pub enum Stall {
     NotReading,
     /// (rate limiting on) one address connects more often than its limit allows, so that it is refused at least once
     OverLimit,
+    /// connects and resets at once (SO_LINGER 0), many times: connections that are already dead when they are accepted
+    ResetInQueue,
 }
 
 #[derive(Clone, Debug, Serialize, Deserialize)]
@@ -78,6 +80,21 @@ fn open_stallers(case: &Case, port: u16) -> Vec<NetClient> {
         let hs = Pkt::Handshake { protocol: 770, host: "stall.example.org".into(), port: 25565, next: 2 }.frame();
         let t = Duration::from_secs(3);
         match st {
+            Stall::ResetInQueue => {
+                use std::os::fd::AsRawFd;
+                drop(c);
+                for _ in 0..40 {
+                    // from an address of its own: the resets must not use up the well-behaved client's rate-limit budget
+                    if let Ok(s) = net::connect_from("127.0.0.4", port) {
+                        let l = libc::linger { l_onoff: 1, l_linger: 0 };
+                        unsafe {
+                            libc::setsockopt(s.as_raw_fd(), libc::SOL_SOCKET, libc::SO_LINGER, &l as *const libc::linger as *const libc::c_void, std::mem::size_of::<libc::linger>() as libc::socklen_t);
+                        }
+                        drop(s);
+                    }
+                }
+                continue;
+            }
             Stall::OverLimit => {
                 // the limit is 2 per announced address with PROXY on, 50 for the peer address otherwise
                 let (n, ip) = if case.proxy { (4, "127.0.0.1") } else { (53, "127.0.0.3") };
@@ -363,6 +380,7 @@ impl Check for C16 {
             1 => Just(Stall::LoggedInSilent),
             1 => Just(Stall::NotReading),
             1 => Just(Stall::OverLimit),
+            1 => Just(Stall::ResetInQueue),
         ];
         let crowd = (16u8..64, 100u16..400, 100u16..250, prop::bool::weighted(0.35)).prop_map(|(n, prefill_k, window_ms, fresh)| if fresh { Crowd { n: n.max(48), prefill_k: 1500 + prefill_k * 2, window_ms, fresh } } else { Crowd { n, prefill_k, window_ms, fresh } });
         (any::<bool>(), any::<bool>(), proptest::collection::vec(stall, 1..20), any::<bool>(), proptest::option::weighted(0.05, crowd))
@@ -386,7 +404,7 @@ impl Check for C16 {
         (v, info)
     }
     fn rule(&self) -> String {
-        "PROXY on/off x rate limiting on/off; 1-19 stalling clients, each stopping at a generated point (silent before the PROXY header, inside the header / first frame, mid-frame, after the handshake, mid-login, logged in and silent, flooding without reading, one address exceeding its rate limit); then one well-behaved client (valid v1 or v2 header if PROXY is on) performs a status exchange; in 5 % of the cases instead 16-63 well-behaved clients arrive in the same instant while the limiter's clean-up of 100k-400k idle addresses is due, and every one of them must be served. non-trivial = at least one client stalls before completing its PROXY header, or at least five stall elsewhere; distinct = distinct case".into()
+        "PROXY on/off x rate limiting on/off; 1-19 stalling clients, each stopping at a generated point (silent before the PROXY header, inside the header / first frame, mid-frame, after the handshake, mid-login, logged in and silent, flooding without reading, one address exceeding its rate limit, connections reset before they are accepted); then one well-behaved client (valid v1 or v2 header if PROXY is on) performs a status exchange; in 5 % of the cases instead 16-63 well-behaved clients arrive in the same instant while the limiter's clean-up of 100k-400k idle addresses is due, and every one of them must be served. non-trivial = at least one client stalls before completing its PROXY header, or at least five stall elsewhere; distinct = distinct case".into()
     }
     fn assumptions(&self) -> Vec<String> {
         vec![
